@@ -1,0 +1,102 @@
+//go:build verif
+
+package keystore
+
+// Contracts for govc (see /verif/DESIGN.md, C02): every persistent item of a keystore is read back from the slot it is
+// written to and decoded inversely, and loadAddrManager builds the in-memory image from exactly those reads.
+// (le32 is defined in zz_contracts_issue_verif.go.)
+
+//@ spec func sameBytes(a []byte, b []byte) bool = len(a) == len(b) && (forall j int :: 0 <= j && j < len(a) ==> a[j] == b[j])
+
+//@ func putMasterKeyParams
+//@   assert-at call Put#1 private-parameters-under-mpriv: arg1 == masterPrivKeyName && arg2 == privParams
+//@   assert-at call Put#2 public-parameters-under-mpub: arg1 == masterPubKeyName && arg2 == pubParams
+//@ func fetchMasterKeyParams
+//@   assert-at call Get#1 public-parameters-from-mpub: arg1 == masterPubKeyName
+//@   assert-at call Get#2 private-parameters-from-mpriv: arg1 == masterPrivKeyName
+//@   assert-at return#-1 public-then-private-as-stored: sameBytes(result0, lastresult("Get#1")) && (lastresult("Get#2") != nil ==> sameBytes(result1, lastresult("Get#2")))
+
+//@ func putMasterHDKeys
+//@   assert-at call Put#1 root-private-ciphertext-under-mhdpriv: arg1 == masterHDPrivName && arg2 == masterHDPrivEnc
+//@   assert-at call Put#2 root-public-ciphertext-under-mhdpub: arg1 == masterHDPubName && arg2 == masterHDPubEnc
+//@ func fetchMasterHDKeys
+//@   assert-at call Get#1 root-private-ciphertext-from-mhdpriv: arg1 == masterHDPrivName
+//@   assert-at call Get#2 root-public-ciphertext-from-mhdpub: arg1 == masterHDPubName
+//@   assert-at return#-1 private-then-public-as-stored: (lastresult("Get#1") != nil ==> sameBytes(result0, lastresult("Get#1"))) && (lastresult("Get#2") != nil ==> sameBytes(result1, lastresult("Get#2")))
+
+//@ func putCryptoKeys
+//@   assert-at call Put#1 public-crypto-key-ciphertext-under-cpub: arg1 == cryptoPubKeyName && arg2 == pubKeyEncrypted
+//@   assert-at call Put#2 private-crypto-key-ciphertext-under-cpriv: arg1 == cryptoPrivKeyName && arg2 == privKeyEncrypted
+//@ func fetchCryptoKeys
+//@   assert-at call Get#1 public-crypto-key-ciphertext-from-cpub: arg1 == cryptoPubKeyName
+//@   assert-at call Get#2 private-crypto-key-ciphertext-from-cpriv: arg1 == cryptoPrivKeyName
+//@   assert-at return#-1 public-then-private-as-stored: sameBytes(result0, lastresult("Get#1")) && (lastresult("Get#2") != nil ==> sameBytes(result1, lastresult("Get#2")))
+
+//@ func putAccountUsage
+//@   assert-at call Put account-number-under-account: arg1 == accountUsageName && len(arg2) == 4 && le32(arg2) == account
+//@ func fetchAccountUsage
+//@   assert-at call Get account-number-from-account: arg1 == accountUsageName
+//@   assert-at return#-1 decoded-as-stored: result0 == le32(lastresult("Get"))
+
+//@ func putCoinType
+//@   assert-at call Put coin-type-under-coinType: arg1 == coinTypeName && len(arg2) == 4 && le32(arg2) == coin
+//@ func fetchCoinType
+//@   assert-at call Get coin-type-from-coinType: arg1 == coinTypeName
+//@   assert-at return#-1 decoded-as-stored: result0 == le32(lastresult("Get"))
+
+//@ func putRemark
+//@   assert-at call Put remark-under-remark: arg1 == remarkName && arg2 == remark
+//@ func fetchRemark
+//@   assert-at call Get remark-from-remark: arg1 == remarkName
+//@   assert-at return#-1 as-stored: result0 == lastresult("Get", 0)
+//@ func deleteRemark
+//@   assert-at call Delete remark-slot-deleted: arg1 == remarkName
+
+//@ func putBranchPubKeys
+//@   assert-at call Put#1 external-branch-key-under-exbPubKey: arg1 == externalBranchPubKeyName && arg2 == encryptedExternalKey
+//@   assert-at call Put#2 internal-branch-key-under-inbPubKey: arg1 == internalBranchPubKeyName && arg2 == encryptedInternalKey
+//@ func fetchBranchPubKeys
+//@   assert-at call Get#1 external-branch-key-from-exbPubKey: arg1 == externalBranchPubKeyName
+//@   assert-at call Get#2 internal-branch-key-from-inbPubKey: arg1 == internalBranchPubKeyName
+//@   assert-at return#-1 internal-first-then-external-as-stored: result0 == lastresult("Get#2", 0) && result1 == lastresult("Get#1", 0)
+
+//@ func putAccountRow
+//@   assert-at call Put row-under-its-account-number: len(arg1) == 4 && le32(arg1) == accountUsage && arg2 == lastresult("serializeAccountRow")
+//@ func fetchAccountInfo
+//@   assert-at call Get row-from-its-account-number: len(arg1) == 4 && le32(arg1) == account
+//@   assert-at call deserializeAccountRow decodes-what-was-read: arg1 == lastresult("Get", 0)
+//@   assert-at call deserializeHDAccountKey then-the-key-pair-of-that-row: arg1 == lastresult("deserializeAccountRow", 0)
+
+//@ func serializeAccountRow
+//@   requires row != nil && len(row.rawData) < 4294967296
+//@   modifies nothing
+//@   ensures type-length-data: fresh(result) && len(result) == 5 + len(row.rawData) && result[0] == row.acctType % 256 && le32(result[1:5]) == len(row.rawData) && (forall j int :: 0 <= j && j < len(row.rawData) ==> result[5 + j] == row.rawData[j])
+//@ func deserializeAccountRow
+//@   ensures type-length-data-read-back: err == nil ==> result0 != nil && result0.acctType == serializedAccount[0] && len(result0.rawData) == le32(serializedAccount[1:5]) && (forall j int :: 0 <= j && j < len(result0.rawData) ==> result0.rawData[j] == serializedAccount[5 + j])
+
+//@ func fetchEncryptedPubKey
+//@   assert-at call Uint32#1 branch-from-the-first-four-key-bytes: arg1 == lastresult("GetByPrefix", 0)[#rangeindex + 1].Key[0:4]
+//@   assert-at call Uint32#2 index-from-the-next-four-key-bytes: arg1 == lastresult("GetByPrefix", 0)[#rangeindex + 1].Key[4:8]
+//@   loop * invariant one-record-per-entry: -1 <= #rangeindex && #rangeindex < len(entries) && len(pks) == #rangeindex + 1
+
+//@ func serializeHDAccountKey
+//@   requires len(encryptedPubKey) < 2147483648 && len(encryptedPrivKey) < 2147483648
+//@   modifies nothing
+//@   ensures length-prefixed-public-then-private: fresh(result) && len(result) == 8 + len(encryptedPubKey) + len(encryptedPrivKey) && le32(result[0:4]) == len(encryptedPubKey) && (forall j int :: 0 <= j && j < len(encryptedPubKey) ==> result[4 + j] == encryptedPubKey[j]) && le32(result[4 + len(encryptedPubKey):8 + len(encryptedPubKey)]) == len(encryptedPrivKey) && (forall j int :: 0 <= j && j < len(encryptedPrivKey) ==> result[8 + len(encryptedPubKey) + j] == encryptedPrivKey[j])
+//@ func deserializeHDAccountKey
+//@   requires row != nil
+//@   ensures length-prefixed-public-then-private-read-back: err == nil ==> result0 != nil && len(result0.pubKeyEncrypted) == le32(row.rawData[0:4]) && (forall j int :: 0 <= j && j < len(result0.pubKeyEncrypted) ==> result0.pubKeyEncrypted[j] == row.rawData[4 + j]) && len(result0.privKeyEncrypted) == le32(row.rawData[4 + len(result0.pubKeyEncrypted):8 + len(result0.pubKeyEncrypted)]) && (forall j int :: 0 <= j && j < len(result0.privKeyEncrypted) ==> result0.privKeyEncrypted[j] == row.rawData[8 + len(result0.pubKeyEncrypted) + j])
+
+//@ func loadAddrManager
+//@   assert-at call Unmarshal#1 private-master-key-from-the-stored-private-parameters: arg1 == lastresult("fetchMasterKeyParams", 1)
+//@   assert-at call Unmarshal#2 public-master-key-from-the-stored-public-parameters: arg1 == lastresult("fetchMasterKeyParams", 0)
+//@   assert-at call DeriveKey opened-with-the-given-public-passphrase: deref(arg1) == pubPassphrase
+//@   assert-at call Decrypt#1 public-crypto-key-from-its-stored-ciphertext: arg1 == lastresult("fetchCryptoKeys", 0)
+//@   assert-at call fetchAccountInfo row-of-the-stored-account-number: arg1 == lastresult("fetchAccountUsage")
+//@   assert-at call Decrypt#3 internal-branch-key-from-its-slot: arg1 == lastresult("fetchBranchPubKeys", 0)
+//@   assert-at call Decrypt#4 external-branch-key-from-its-slot: arg1 == lastresult("fetchBranchPubKeys", 1)
+//@   assert-at call newManagedAddressWithoutPrivKey address-with-the-stored-branch-and-index: arg1.Account == lastresult("fetchAccountUsage") && arg1.Branch == pkp.branch && arg1.Index == pkp.index && arg2 == lastresult("ParsePubKey")
+//@   assert-at call Decrypt#5 public-key-from-the-stored-record: arg1 == pkp.pubkeyEnc
+//@   assert-at call ParsePubKey parsed-from-that-plaintext: arg0 == lastresult("Decrypt#5")
+//@   assert-at return#-1 image-built-from-what-was-read: result0 != nil && !result0.unlocked && result0.addrs == managedAddresses && len(result0.remark) == len(lastresult("fetchRemark", 0))
+//@   assert-at return#-1 counters-and-keys-as-stored: result0.branchInfo.nextInternalIndex == lastresult("fetchChildNum", 0) && result0.branchInfo.nextExternalIndex == lastresult("fetchChildNum", 1) && result0.cryptoKeyPrivEncrypted == lastresult("fetchCryptoKeys", 1) && result0.acctInfo.acctType == lastresult("fetchAccountUsage") && result0.storage == lastresult("GetBucketMeta") && result0.keystoreName == lastresult("Name")
